@@ -322,6 +322,32 @@ def eol_streams() -> list[dict]:
     return out
 
 
+def upgrade_streams() -> list[dict]:
+    """A request that offers an upgrade AND has a body (the switch is deferred to the end of the body), followed by more
+    bytes: another request, a websocket frame, nothing.  Every single cut and pair of cuts."""
+    up = b"Connection: Upgrade\r\nUpgrade: websocket\r\n"
+    out = []
+    for body in (b"Content-Length: 10\r\n\r\n0123456789", b"Transfer-Encoding: chunked\r\n\r\n4\r\n0123\r\n6\r\n456789\r\n0\r\n\r\n",
+                 b"Content-Length: 0\r\n\r\n", b"\r\n"):
+        for after in (b"GET /after HTTP/1.1\r\nHost: a\r\n\r\n", b"\x81\x02hi", b""):
+            for method in (b"POST", b"GET"):
+                out.append({"kind": "request", "stream": method + b" /u HTTP/1.1\r\nHost: a\r\n" + up + body + after, "cls": "upgrade-with-body",
+                            "limits": {}, "exhaustive_max": 200})
+    return out
+
+
+def unit_upgrade(rec: Rec) -> None:
+    for case in upgrade_streams():
+        try:
+            body(rec, case)
+        except Violation as v:
+            if v.key in rec.muted:
+                continue
+            rec.fail(v.key, v.msg, case)
+            rec.muted.add(v.key)
+    rec.exhaustive = True
+
+
 def unit_eol(rec: Rec, shard: int, nshards: int) -> None:
     for i, case in enumerate(eol_streams()):
         if i % nshards != shard:
@@ -368,6 +394,7 @@ def units(tier: str, seed: int) -> list[Unit]:
         us.append(Unit(f"compressed{sh}", unit_compressed, {"shard": sh, "nshards": 3}))
     for sh in range(3):
         us.append(Unit(f"eol{sh}", unit_eol, {"shard": sh, "nshards": 3}))
+    us.append(Unit("upgrade", unit_upgrade, {}))
     return us
 
 
